@@ -59,6 +59,17 @@ def history_c06(seed, nops=12):
             if not names:
                 n = nn
             m, rows = _mk(np, osy, kind, n, rng, unit)
+            arrs = [k for k, v in model.items() if v[0] == "A" and k != name]
+            if arrs and rng.random() < 0.3:
+                # a member sharing data with an existing one: a Vector built from it, or the same ndarray
+                src = rng.choice(arrs)
+                if rng.random() < 0.5:
+                    ys = np.array([float(rng.randint(-50, 50)) for _ in range(n)])
+                    m = osy.Vector(g[src], osy.Array(values=ys, unit=model[src][1]))
+                    kind, unit, rows = "V", model[src][1], [(r[0], float(y)) for r, y in zip(model[src][2], ys)]
+                else:
+                    m = osy.Array(values=g[src]._array, unit=model[src][1])
+                    kind, unit, rows = "A", model[src][1], list(model[src][2])
             log.append((op, name, kind))
             if op == "update":
                 g.update({name: m})
@@ -313,6 +324,8 @@ def eq_matrix():
         ("vector_y_differs", False, grp(v=V([1, 2], [3, 4])), grp(v=V([1, 2], [3, 5]))),
         ("second_member_differs", False, grp(a=A([1, 2]), b=A([5, 6])), grp(a=A([1, 2]), b=A([5, 7]))),
         ("empty", True, grp(), grp()),
+        ("reordered_equal", True, grp(a=A([1, 2]), b=A([5, 6], "s")), grp(b=A([5, 6], "s"), a=A([1, 2]))),
+        ("reordered_swapped_contents", False, grp(a=A([1, 2]), b=A([5, 6])), grp(b=A([1, 2]), a=A([5, 6]))),
     ]
     out = []
     for label, want, g, h in cases:
@@ -324,9 +337,29 @@ def eq_matrix():
     return out
 
 
+def falsy_get():
+    import numpy as np
+    import osyris as osy
+
+    bad = []
+    g = osy.Datagroup()
+    a = osy.Array(values=3.0, unit="m")
+    g["s"] = a
+    if g.get("s", "default") is not a:
+        bad.append("Datagroup.get of a stored 0-d Array returned %r" % (g.get("s", "default"),))
+    ds = osy.Dataset()
+    e = osy.Datagroup()
+    ds["e"] = e
+    if ds.get("e", "default") is not e:
+        bad.append("Dataset.get of a stored empty Datagroup returned %r" % (ds.get("e", "default"),))
+    return bad
+
+
 def sweep_c20(tier, seed):
     nh = 300 if tier == "quick" else 5000
     viol, cases = [], 0
+    for b in falsy_get():
+        viol.append({"name": "C20.native.get_falsy", "input": "get() of a falsy stored value", "observed": b})
     for h in range(nh):
         for ds in (False, True):
             cases += 1
